@@ -49,6 +49,7 @@ If the number of desired trees is > number of input trees:
 					outtrees[totaltrees] = t.Tree
 				} else {
 					j := rand.Intn(totaltrees + 1)
+					verifDraw("sample", totaltrees+1, j)
 					if j < numtrees {
 						outtrees[j] = t.Tree
 					}
@@ -71,6 +72,7 @@ If the number of desired trees is > number of input trees:
 				for j := 0; j < numtrees; j++ {
 					// One chance over current number of trees to replace the tree at j
 					r := rand.Intn(totaltrees)
+					verifDraw("sample-replace", totaltrees, r)
 					if r == 0 {
 						outtrees[j] = t.Tree
 					}
